@@ -86,7 +86,9 @@ fn main() {
     assert!(sec.len() == 64);
     // warm-up: the same operation on a public input, untraced (initialises CPU feature
     // detection, lazily built statics, allocator arenas), then the traced run on the secret
-    run_op(op, &[0x42u8; 64]);
+    // (the large multiscalar operations warm up with the two-term form: what has to be initialised is the same,
+    // and everything before the begin marker is public and identical for every secret anyway)
+    run_op(if op.contains("multiscalar_n") { "ed_multiscalar_2" } else { op }, &[0x42u8; 64]);
     TRACED.store(true, std::sync::atomic::Ordering::Relaxed);
     run_op(op, &sec);
 }
@@ -139,6 +141,31 @@ fn run_op(op: &str, sec: &[u8]) {
         "ed_multiscalar_1" => traced!(&mut slot, EdwardsPoint::multiscalar_mul([s1].iter(), [pub_point].iter())),
         "ed_multiscalar_2" => traced!(&mut slot, EdwardsPoint::multiscalar_mul([s1, s2].iter(), [pub_point, pub_point2].iter())),
         "ed_multiscalar_3" => traced!(&mut slot, EdwardsPoint::multiscalar_mul([s1, s2, s1nz].iter(), [pub_point, pub_point2, sp1].iter())),
+        // sizes at the thresholds where the *variable-time* front end switches algorithm (190, 500, 800 terms): the
+        // constant-time front end must not switch at all
+        "ed_multiscalar_n190" | "ed_multiscalar_n500" | "ed_multiscalar_n800" | "ris_multiscalar_n190" => {
+            let n: usize = op.rsplit('n').next().unwrap().parse().unwrap();
+            let scalars: Vec<Scalar> = (0..n).map(|i| s1 * Scalar::from(i as u64 + 1) + s2).collect();
+            let mut points: Vec<EdwardsPoint> = Vec::with_capacity(n);
+            let mut acc = pub_point;
+            for _ in 0..n {
+                points.push(acc);
+                acc += ED25519_BASEPOINT_POINT;
+            }
+            if op.starts_with("ris") {
+                let mut rpoints: Vec<curve25519_dalek::ristretto::RistrettoPoint> = Vec::with_capacity(n);
+                let mut racc = curve25519_dalek::constants::RISTRETTO_BASEPOINT_POINT * Scalar::from(7u64);
+                for _ in 0..n {
+                    rpoints.push(racc);
+                    racc += curve25519_dalek::constants::RISTRETTO_BASEPOINT_POINT;
+                }
+                let scalars = black_box(scalars);
+                traced!(&mut slot, curve25519_dalek::ristretto::RistrettoPoint::multiscalar_mul(scalars.iter(), rpoints.iter()))
+            } else {
+                let scalars = black_box(scalars);
+                traced!(&mut slot, EdwardsPoint::multiscalar_mul(scalars.iter(), points.iter()))
+            }
+        }
         #[cfg(feature = "tables")]
         "ed_table_radix16" | "ed_table_radix32" | "ed_table_radix64" | "ed_table_radix128" | "ed_table_radix256" => {
             use curve25519_dalek::edwards::*;
